@@ -1,5 +1,5 @@
 SPECIFICATION Spec
-CONSTANT MaxLen = 10
+CONSTANT MaxLen = 8
 CONSTANT Instances = {"frame"}
 INVARIANT DepsExact
 INVARIANT ConflictsOrdered
